@@ -342,9 +342,14 @@ func TestVerifControlCover(t *testing.T) {
 						}
 					}
 				case "StopExpired":
+					// the context has ended before the call: its error is the answer at once, however rarely Stop looks
+					// at the terminal flag (with a long polling interval an implementation that consults the context
+					// only between two looks at the flag answers late, and with nil once the shutdown has completed)
 					ctx, cancel := context.WithCancel(context.Background())
 					cancel()
+					shutdownPollInterval = 1500 * time.Millisecond
 					got = ctlErr(r.eng.Stop(ctx))
+					shutdownPollInterval = 10 * time.Millisecond
 				}
 				if got != want {
 					// while the shutdown is in progress a call may observe either side: the state machine has one
